@@ -640,3 +640,100 @@ def rule_hot_guard(db, chk, cfg, rule="HOT.guard"):
                           % (nm, key, key), where(x), cfg=cfg)
         chk.instance(rule, {"function": f.qual, "call_sites": cl.sites, "unproved": nbad, "cfg": cfg}, n=max(cl.sites, 1), ok=nbad == 0)
     return n
+
+
+# ---------------------------------------------------------------------------
+# RECURSION: self-recursive functions (C10: bounded time and memory)
+# ---------------------------------------------------------------------------
+
+def rule_recursion(db, chk, cfg, rule="RECURSION", lib_only=True):
+    """Two clauses over every directly self-recursive library function.
+    (by-value)  it takes no container by value: each level of the recursion would copy it, so memory is depth x size
+                (quadratic for a recursion as deep as the container is long);
+    (guard)     if the function protects itself against cyclic data with a visited mark (`if (X->m == K) continue; X->m = K;`),
+                every recursive call on the data reached through X lies after the mark on every path - a recursive call made
+                before the mark is not protected by it (must-precede dataflow inside the function)."""
+    from ..flow import Walker, Client
+    from ..astq import if_parts
+    n = 0
+    seen_sigs = set()
+    for f in db.funcs:
+        if f.body is None or f.is_pattern:
+            continue
+        if lib_only and "Clipper2Lib" not in (f.file or "") and "clipper2" not in (f.file or ""):
+            continue
+        selfcalls = [x for x in walk(f.body) if x.get("kind") in ("CallExpr", "CXXMemberCallExpr") and
+                     db.callee_func(x) is not None and db.callee_func(x).id == f.id]
+        if not selfcalls:
+            continue
+        key = (f.qual, f.sig)
+        if key in seen_sigs:
+            continue
+        seen_sigs.add(key)
+        # (by-value)
+        for p in f.params:
+            t = qt(p)
+            d = dqt(p)
+            byval = not t.rstrip().endswith(("&", "*")) and ("vector<" in d or "deque<" in d or "Path<" in t or "Paths<" in t or "Path64" in t or "PathD" in t)
+            if "vector<" in d or "Path" in t:
+                n += 1
+                chk.instance(rule, {"function": f.qual, "sig": f.sig[:70], "clause": "by-value", "parameter": p.get("name"), "type": t, "cfg": cfg}, ok=not byval)
+                if byval:
+                    chk.violation(rule, f.qual, "by-value|%s|%s" % (p.get("name"), t[:40]),
+                                  "the self-recursive function %s takes the container `%s` (%s) by value: every level of the recursion copies it, so the "
+                                  "memory in use is (recursion depth) x (container size) - quadratic when the recursion is as deep as the path is long"
+                                  % (f.qual, p.get("name"), t), f.where, cfg=cfg)
+        # (guard) find a visited-mark idiom:  X->m = K  with a test  X->m == K  in the same function
+        marks = []
+        for x in walk(f.body):
+            if x.get("kind") == "BinaryOperator" and x.get("opcode") == "=":
+                l = _u(kids(x)[0])
+                if l.get("kind") == "MemberExpr" and kids(l):
+                    lhs, rhs = canon(l), canon(kids(x)[1])
+                    tested = any(y.get("kind") == "BinaryOperator" and y.get("opcode") in ("==", "!=") and
+                                 sorted([canon(kids(y)[0]), canon(kids(y)[1])]) == sorted([lhs, rhs]) for y in walk(f.body))
+                    if tested:
+                        marks.append((x, lhs, rhs))
+        if not marks:
+            n += 1
+            chk.instance(rule, {"function": f.qual, "sig": f.sig[:70], "clause": "guard", "visited_mark": None, "cfg": cfg})
+            continue
+        mark_ids = {id(m[0]) for m in marks}
+        call_ids = {id(c): c for c in selfcalls}
+        results = {}
+
+        class C(Client):
+            def join(self, a, b):
+                return a and b
+
+            def _apply(self, node, st):
+                for y in walk(node):
+                    if id(y) in call_ids and id(y) not in results:
+                        results[id(y)] = st
+                    elif id(y) in call_ids:
+                        results[id(y)] = results[id(y)] and st
+                    if id(y) in mark_ids:
+                        st = True
+                return st
+
+            def stmt(self, node, st):
+                if node.get("kind") == "VarDecl" and node.get("name") and any(m[1].startswith(node.get("name") + "->") for m in marks):
+                    return False           # the loop variable the mark hangs on is rebound: a new element, not yet marked
+                return self._apply(node, st)
+
+            def cond_atom(self, expr, st):
+                s = self._apply(expr, st)
+                return s, s
+
+        Walker(C()).function(f.body, False)
+        for cid, c in call_ids.items():
+            ok = bool(results.get(cid, False))
+            n += 1
+            chk.instance(rule, {"function": f.qual, "clause": "guard", "call": canon(c)[:60], "at": where(c), "visited_mark": marks[0][1] + " = " + marks[0][2],
+                                "after_mark_on_every_path": ok, "cfg": cfg}, ok=ok)
+            if not ok:
+                chk.violation(rule, f.qual, "guard|%s" % where(c).split(":")[-1] if False else "guard|" + canon(c)[:50] + "|" + ("1st" if c is selfcalls[0] else "later"),
+                              "%s protects itself against cyclic data with the visited mark `%s = %s`, but the recursive call `%s` is made before the mark on "
+                              "some path: a cycle through the data it descends into is followed forever (stack exhaustion)"
+                              % (f.qual, marks[0][1], marks[0][2], canon(c)[:70]), where(c), cfg=cfg)
+    return n
